@@ -1,3 +1,19 @@
 from props.common import run_all as run  # noqa: F401
 
-META = {"claimed": False, "reason": "check not built yet (work in progress; the technique applies, see DESIGN.md section 5)"}
+META = {'claimed': True,
+ 'title': 'Parsers of untrusted text and bytes never touch memory outside their input',
+ 'level_text': 'proof: every parser is modelled on CHECKED memory (a read or write outside the object, or past the NUL of a C string, is Fault; loops run on fuel) and proved to return Ok for EVERY '
+               'input. json_find: for every byte string and key, no fault, fuel suffices at every nesting depth, result offset in [0, len] (C15_json_find_total, C15_json_skip_value_total; '
+               "regression: the pre-repair code over-reads on the F1 witness); base-64 decoder/encoder stay within input and the contract's output size, outlen within it (C15_b64decode_no_fault, "
+               "C15_b64encode_no_fault); unhexify reads only its string (C17_unhexify_exact); PARSENUM_EX (all widths, bounds, bases, trailing), parsenum_float's wrapper and humansize_parse finish "
+               'Ok on every NUL-terminated string with accepted values inside bounds and type (C15_parsenum_*_safe, C15_humansize_parse_safe); sock_resolve / sock_addr_ensure_port on every string, '
+               'sock_addr_deserialize reads only buflen bytes whatever the length field says (C15_sock_*); aws_readkeys and readpass_file for every file content and prior stack-buffer content, fgets '
+               'never given more than the buffer holds (sizes regenerated) (C15_aws_readkeys_no_fault, C15_readpass_file_no_fault); getopt: every read of argv strings, the packed-option cursor, '
+               'strncmp inside searchopt and optarg stays inside the terminated strings, loop terminates, final optind in range (C15_getopt_no_fault, C15_searchopt_in_bounds, '
+               'C15_getopt_optind_range). 18 theorems + the hex one. Bound to the C by correspondence runs under ASan/UBSan with every input in a heap block of exactly its size (arbitrary, truncated '
+               'and mutated inputs; implementation result = model result, which is proved never to fault). KNOWN FINDING F11 (listed): json_find recurses once per nesting level without a depth '
+               'limit; ~262,000 unclosed brackets exhaust an 8 MiB stack - outside the Gallina model (no stack), probed on the compiled code and reported as KNOWN-FINDING.',
+ 'level_note': "Trusted: Coq kernel; hand-written models on checked memory bound by differential execution under ASan; libc pieces are oracles with only their bounds assumed (strtod's end pointer "
+               'within the string, inet_pton fills 16 bytes, fgets per C99); machine stack depth is outside the model (F11). Print Assumptions: closed under the global context.',
+ 'trusted_base': ['ASan/UBSan for the C side of the correspondence', 'models of strtoumax/strtoimax per glibc 2.36 (DESIGN Appendix A)'],
+ 'assumptions': ['inputs are NUL-terminated where the C contract says string, and (buf, len) describes one object where it says buffer']}
